@@ -457,6 +457,8 @@ namespace GeographicLib {
         is.read(reinterpret_cast<char *>(&numpoints), sizeof(int));
         is.read(reinterpret_cast<char *>(&treesize), sizeof(int));
         is.read(reinterpret_cast<char *>(&cost), sizeof(int));
+        if (!is.good())
+          throw GeographicLib::GeographicErr("Bad header");
       } else {
         if (!( is >> version1 >> realspec >> bucket >> numpoints >> treesize
                >> cost ))
@@ -493,6 +495,8 @@ namespace GeographicLib {
             for (int l = bucket; l < maxbucket; ++l)
               node.leaves[l] = 0;
           }
+          if (!is.good())
+            throw GeographicLib::GeographicErr("Bad node data");
         } else {
           if (!( is >> node.index ))
             throw GeographicLib::GeographicErr("Bad index");
